@@ -143,8 +143,9 @@ Definition spec_code (c : case) : N :=
       else if negb (Bool.eqb comp (forallb (covered_b n adds) (seq 0 n))) then 1%N
       else if slices && comp && negb (bytes_eqb asm msg) then 2%N
       else 0%N
-  | RecvCase frags calls msgs err _ _ =>
-      if Nat.ltb 60 (length frags) then 0%N
+  | RecvCase frags calls msgs err pending _ =>
+      if Nat.ltb (256 * calls) pending then 10%N       (* more reassembly buffers than the read loops may create *)
+      else if Nat.ltb 60 (length frags) then 0%N
       else if negb (lbytes_eqb (ref_recv calls [] frags) msgs) then 4%N else 0%N
   | SendCase pmtu typ seq body frags transcript err maxlen =>
       if N.eqb err 0 then
